@@ -405,6 +405,14 @@ static void cmd_pb(int nt, char **t)
 		if (r == 0) pb_term_defined = 0;
 		pb_state(r, e, len, off); return;
 	}
+	if (!strcmp(op, "fmts1")) {   /* the bare "%s" with an argument that lies inside the buffer itself: sprintbuf(pb, "%s", pb->buf + k); the copy is taken before anything may move */
+		long k = L(t[2]);
+		if (!pb_term_defined) { pb_state(0, 0, -1, 0); return; }
+		n = (long)strlen(PB->buf); if (k > n) k = n;
+		errno = 0; r = sprintbuf(PB, "%s", PB->buf + k); e = errno;
+		if (r >= 0) pb_term_defined = 1;
+		pb_state(r, e, n, k); return;
+	}
 	if (!strcmp(op, "fmts")) {   /* the buffer's own contents (as a C string) formatted into itself, twice: sprintbuf(pb, "%s|%s", pb->buf, pb->buf) */
 		if (!pb_term_defined) { pb_state(0, 0, -1, 0); return; }   /* not known to be terminated (a memset came last): the driver does not run strlen over it; n = -1 says "skipped" */
 		n = (long)strlen(PB->buf);
@@ -1154,11 +1162,13 @@ static void cmd_failnext(int nt, char **t) { long k = L(t[1]); (void)nt; if (k >
 /* ---- equality / copy (C09) ---- */
 static void cmd_eq(int nt, char **t) { (void)nt; ob_printf(&out, "= %d", json_object_equal(H[hidx(t[1])], H[hidx(t[2])])); }
 static long copy_uid_next;
-static long copy_fail_at, copy_calls;
+static long copy_fail_at, copy_calls; static int copy_mode;
 static int tracking_shallow_copy(json_object *src, json_object *parent, const char *key, size_t index, json_object **dst)
 {
 	if (copy_fail_at > 0 && ++copy_calls == copy_fail_at) return -1;   /* a callback that gives up on its k-th node, without touching *dst */
 	int rc = json_c_shallow_copy_default(src, parent, key, index, dst);
+	/* mode 3: "I have dealt with this node's serializer data myself" (return 2) for every node that has none -- containers included, whose children are still the library's job */
+	if (copy_mode == 3) return (rc == 1 && *dst && !json_object_get_userdata(src)) ? 2 : rc;
 	if (rc >= 1 && *dst && uid_of(src) > 0 && json_object_get_type(src) != json_type_double) { json_object_set_userdata(*dst, (void *)(intptr_t)(copy_uid_next++), del_cb); return 2; }
 	return rc;
 }
@@ -1167,7 +1177,7 @@ static void cmd_dcopy(int nt, char **t)
 {
 	int hs = hidx(t[1]), hd = hidx(t[2]); int mode = (int)L(t[3]); struct json_object *d = NULL; int rc;
 	if (nt > 4) copy_uid_next = L(t[4]);
-	copy_fail_at = (mode == 2 && nt > 5) ? L(t[5]) : 0; copy_calls = 0;
+	copy_fail_at = (mode == 2 && nt > 5) ? L(t[5]) : 0; copy_calls = 0; copy_mode = mode;
 	errno = 0;
 	rc = json_object_deep_copy(H[hs], &d, mode ? tracking_shallow_copy : NULL);
 	copy_fail_at = 0;
